@@ -1,4 +1,15 @@
 use crate::{atomics::AtomicU64, cow::Cow, IntoLabels, KeyHasher, Label, SharedString};
+#[cfg(metrics_verif)]
+use crate::__verif::sync::atomic::AtomicBool;
+#[cfg(metrics_verif)]
+use std::{
+    borrow::Borrow,
+    cmp, fmt,
+    hash::{Hash, Hasher},
+    slice::Iter,
+    sync::atomic::Ordering,
+};
+#[cfg(not(metrics_verif))]
 use std::{
     borrow::Borrow,
     cmp, fmt,
